@@ -221,6 +221,10 @@ class Interface:
                 qi = t.var('mk!', t.INT)
                 st.assume(t.forall([qi], t.app('(_ is VStr)', t.BOOL, t.app('map_key', t.VAL, m.ident, qi)), pats=[[t.app('map_key', t.VAL, m.ident, qi)]]))
 
+            qk = t.var('mk2!', t.INT)
+            st.assume(t.forall([qk], t.implies(t.and_(t.le(t.ZERO, qk), t.lt(qk, n)), t.app('map_has', t.BOOL, m.ident, t.app('map_key', t.VAL, m.ident, qk))),
+                               pats=[[t.app('map_key', t.VAL, m.ident, qk)]]))       # iteration yields keys of the mapping (and only those)
+
             def at(i):
                 k = t.app('map_key', t.VAL, m.ident, i)
                 kv = VStr(t.app('sval', t.STR, k)) if getattr(m, 'keys', 'dyn') == 'str' else VDyn(k)
@@ -388,6 +392,9 @@ class Interface:
             f, d = t.T('Fields', 'select', (H, o.addr)), t.T('Keys', 'select', (D, o.addr))
             n = t.app('cont_len', t.INT, d)
             st.assume(t.ge(n, t.ZERO))
+            qc = t.var('ck2!', t.INT)
+            st.assume(t.forall([qc], t.implies(t.and_(t.le(t.ZERO, qc), t.lt(qc, n)), t.T(t.BOOL, 'select', (d, t.app('cont_key', t.STR, d, qc)))),
+                               pats=[[t.app('cont_key', t.STR, d, qc)]]))             # iteration yields keys that are present
 
             def at(i):
                 k = t.app('cont_key', t.STR, d, i)
